@@ -316,11 +316,14 @@ def decorate(rng, D, rich=True):
     return D
 
 
+P_DIRS = [0.12]
+
+
 def _dirs(rng, D, loc):
     """Applications of custom directives declared in D (not part of the dumped content)."""
     out = []
     for d in D["directives"]:
-        if rng.random() < 0.12:
+        if rng.random() < P_DIRS[0]:
             args = []
             for a in d.get("args") or []:
                 if a.get("default") is not None and rng.random() < 0.5:
@@ -358,7 +361,17 @@ def _split(rng, seq, nblocks):
     return out
 
 
-def items_of(rng, D, p_ext=0.45, s8_safe=True):
+def items_of(rng, D, p_ext=0.45, s8_safe=True, p_dirs=None):
+    if p_dirs is not None:
+        saved, P_DIRS[0] = P_DIRS[0], p_dirs
+        try:
+            return items_of(rng, D, p_ext, s8_safe)
+        finally:
+            P_DIRS[0] = saved
+    return _items_of(rng, D, p_ext, s8_safe)
+
+
+def _items_of(rng, D, p_ext=0.45, s8_safe=True):
     """Definitions + extensions declaring exactly D. With `s8_safe`, members that default literals may
     depend on (enum values, input fields) stay in the base definition (finding S8)."""
     items = []
